@@ -52,3 +52,6 @@ package sender
 
 //@ func (*sender.filterRuleList).addRule
 //@   modifies sender.filterRule.flag, sender.filterRule.pattern, sender.filterRuleList.Filters, E:*sender.filterRule
+
+// A rule never carries the wildcard flag: addRule refuses such patterns.
+//@ fieldinv sender.filterRule.flag: mod(div(v, 8), 2) == 0
